@@ -532,7 +532,7 @@ Proof.
           by exact (all_false_of_existsb _ A Ez).
         destruct A as [|w B]; [discriminate|]. exfalso.
         apply (caseB1 n IH w B).
-        -- simpl in Hlen; lia.
+        -- simpl in Hlen; injection Hlen as Hlen; exact Hlen.
         -- apply HAx; left; reflexivity.
         -- apply HAz; left; reflexivity.
         -- intros u Hu; apply HAx; right; exact Hu.
@@ -556,7 +556,7 @@ Proof.
 Qed.
 
 Lemma symp_emb n a b : symp n a b = sympf n (emb n a) (emb n b).
-Proof. symmetry. exact (fold_sympf n (emb n a) (emb n b)). Qed.
+Proof. exact (fold_sympf n (emb n a) (emb n b)). Qed.
 
 Lemma lin_emb n sel : forall A p, linf sel (map (emb n) A) p = lin sel A (col n p).
 Proof.
